@@ -397,6 +397,13 @@ def gen_er(rng, tier, i):
     n = rng.randint(1, 8 if tier == "thorough" else 6)
     nv = rng.randint(2, 5)
     ids = rng.sample(range(0, 16), nv)
+    if sub in ("plain", "per_utt", "distances", "per_utt_distances", "prefix", "stored_times", "tie_costs", "nist",
+               "missing", "empty_ref") and rng.random() < 0.3:
+        # stored ids are arbitrary integers when no id2token map is given: the values a batched computation
+        # likes to use as end-of-sequence or padding marks included
+        ids = rng.sample([-1, -2, -1, -100] + list(range(0, 6)), nv)
+        ids = list(dict.fromkeys(ids))
+        nv = len(ids)
     utts = utt_ids(rng, n, hostile=rng.random() < 0.3)
     maxlen = 9 if tier == "thorough" else 6
     refs, hyps = {}, {}
